@@ -10,7 +10,7 @@ CONSTANTS NA = 1
           MaxTx = 2
           MaxLogs = 2
           MaxRefund = 1
-          Ops = {"BeginTx", "AddBalance", "SetTransient", "AddAddress", "AddSlot", "AddRefund", "SubRefund", "AddLog", "Snapshot", "Revert", "Finalise"}
+          Ops = {"BeginTx", "BeginTxL", "AddBalance", "SetTransient", "AddAddress", "AddSlot", "AddRefund", "SubRefund", "AddLog", "Snapshot", "Revert", "Finalise"}
           RuleNames = {"eip158", "cancun"}
           BaseKinds = {0}
           KeepHist = FALSE
